@@ -80,13 +80,14 @@ def main():
     ap = argparse.ArgumentParser()
     ap.add_argument("--tier", default="quick")
     ap.add_argument("--only", default="")
+    ap.add_argument("--exact", action="store_true", help="--only names one seeded change exactly")
     ap.add_argument("--jobs", type=int, default=4)
     ap.add_argument("--seeds", default="0,1")
     ap.add_argument("--dir", default="seeded", help="seeded (a VIOLATION is expected) or harmless (quiet is expected)")
     a = ap.parse_args()
     seeds = [int(x) for x in a.seeds.split(",")]
     names = sorted(n for n in os.listdir(os.path.join(VERIF, a.dir))
-                   if os.path.exists(os.path.join(VERIF, a.dir, n, "meta.json")) and a.only in n)
+                   if os.path.exists(os.path.join(VERIF, a.dir, n, "meta.json")) and (n == a.only if a.exact else a.only in n))
     out = []
     with cf.ThreadPoolExecutor(a.jobs) as ex:
         for r in ex.map(lambda n: one(n, a.tier, seeds, a.dir), names):
@@ -100,12 +101,15 @@ def main():
                 print(f"{r['name']:40s} {r['property']} alarm={r['caught']} same_digest={r.get('equiv_same_digest')} "
                       f"rcs={[run['rc'] for run in r['runs']]} {allv[:3]}", flush=True)
     path = os.path.join(VERIF, a.dir, "RESULTS.json")
-    old = {}
-    if os.path.exists(path):
-        old = {r["name"]: r for r in json.load(open(path))}
-    for r in out:
-        old[r["name"]] = r
-    json.dump(sorted(old.values(), key=lambda r: r["name"]), open(path, "w"), indent=1)
+    import fcntl
+    with open(path + ".lock", "w") as lk:   # several runs may finish at the same time
+        fcntl.flock(lk, fcntl.LOCK_EX)
+        old = {}
+        if os.path.exists(path):
+            old = {r["name"]: r for r in json.load(open(path))}
+        for r in out:
+            old[r["name"]] = r
+        json.dump(sorted(old.values(), key=lambda r: r["name"]), open(path, "w"), indent=1)
 
 
 if __name__ == "__main__":
